@@ -1112,6 +1112,8 @@ class PEval:
                     out.append(r.fields.get("0", UNKNOWN))
                     if len(out) > 20000:
                         raise OutOfFuel()
+            if fname == "repeat" and len(args) == 1 and path.endswith("repeat::repeat"):
+                return Struct("#Repeat", {"v": a0})       # unbounded: only `take(n)` / `zip` make it a sequence
             if fname == "once" and len(args) == 1:
                 return Iter([a0])
             if fname == "empty" and not args:
@@ -1207,6 +1209,9 @@ class PEval:
         if fname in ("clone", "to_owned", "cloned") and len(args) == 1 and isinstance(a0, (Struct, Enum, list)):
             import copy
             return copy.deepcopy(a0)
+        if fname == "from_elem" and len(args) == 2 and isinstance(args[1], int) and "alloc::vec::" in path:
+            import copy as _copy
+            return [_copy.deepcopy(a0) for _ in range(args[1])]          # vec![x; n]
         if fname in ("new", "default", "with_capacity") and ("::vec::Vec" in path or "VecDeque" in path) :
             return []
         if isinstance(a0, list) and fname in ("starts_with", "ends_with") and len(args) == 2 and isinstance(args[1], list) and "slice" in path:
@@ -1254,6 +1259,13 @@ class PEval:
         if isinstance(a0, list) and fname == "clear":
             del a0[:]
             return UNIT
+        if isinstance(a0, Struct) and a0.adt == "#Repeat":
+            import copy as _copy
+            if fname == "take" and len(args) == 2 and isinstance(args[1], int):
+                return Iter([_copy.deepcopy(a0.fields["v"]) for _ in range(args[1])])
+            if fname == "next" and len(args) == 1:
+                return some(_copy.deepcopy(a0.fields["v"]))
+            return self.unknown("unbounded repeat(..).%s" % fname)
         if isinstance(a0, Struct) and a0.adt == "core::ops::range::RangeFrom" and isinstance(a0.fields.get("start"), int) and fname in ("find", "position", "find_map") and len(args) == 2:
             # an unbounded range: search upwards (bounded by the evaluator's fuel)
             i_ = a0.fields["start"]
